@@ -3,11 +3,14 @@ package http
 
 import (
 	"bytes"
+	"context"
 	"encoding/base64"
 	"encoding/binary"
 	"encoding/hex"
 	"encoding/json"
 	"fmt"
+	"io"
+	nethttp "net/http"
 	"net/http/httptest"
 	"net/url"
 	"strconv"
@@ -77,6 +80,8 @@ type httpCase struct {
 	Msgs    [][]byte
 	Err     *gens.ErrSpec
 	Meta    []metaEntry
+	// OtherGateway: content type for which another gateway in the process installs its own protocol ("" = none)
+	OtherGateway string
 }
 
 func esc(s []byte, upper bool) string {
@@ -194,6 +199,11 @@ func runHTTP(c httpCase) (r pbt.Result) {
 	var henc drpc.Encoding = rawEnc{}
 	if c.OwnJSON {
 		henc = jsonEnc{}
+	}
+	if c.OtherGateway != "" {
+		// another gateway of the same process was configured with a protocol of its own for this content type:
+		// that is its business and must not change how this gateway answers
+		_ = drpchttp.NewWithOptions(hf(func(drpc.Stream, string) error { return nil }), drpchttp.WithProtocol(c.OtherGateway, teapotProtocol{}))
 	}
 	h := drpchttp.New(hf(func(s drpc.Stream, rpc string) error {
 		called++
@@ -579,6 +589,12 @@ func genHTTP() *rapid.Generator[httpCase] {
 			c.Err = &e
 		}
 		c.Meta = rapid.SliceOfN(genMetaEntry(true), 0, 4).Draw(t, "meta")
+		if rapid.IntRange(0, 3).Draw(t, "othergw") == 0 {
+			c.OtherGateway = rapid.SampledFrom([]string{c.CT, "*", "application/json"}).Draw(t, "othergwct")
+			if c.OtherGateway == "" {
+				c.OtherGateway = "*"
+			}
+		}
 		return c
 	})
 }
@@ -586,3 +602,21 @@ func genHTTP() *rapid.Generator[httpCase] {
 func TestC14Gateway(t *testing.T) {
 	pbt.Check(t, pbt.Prop[httpCase]{ID: "C14", Name: "gateway", Gen: pbt.G(genHTTP()), Run: runHTTP})
 }
+
+// teapotProtocol is a custom protocol some other gateway uses: every call is answered 418.
+type teapotProtocol struct{}
+
+type teapotStream struct {
+	rw  nethttp.ResponseWriter
+	ctx context.Context
+}
+
+func (teapotProtocol) NewStream(rw nethttp.ResponseWriter, req *nethttp.Request) drpchttp.Stream {
+	return &teapotStream{rw: rw, ctx: req.Context()}
+}
+func (t *teapotStream) Context() context.Context                          { return t.ctx }
+func (t *teapotStream) MsgSend(msg drpc.Message, enc drpc.Encoding) error { return nil }
+func (t *teapotStream) MsgRecv(msg drpc.Message, enc drpc.Encoding) error { return io.EOF }
+func (t *teapotStream) CloseSend() error                                  { return nil }
+func (t *teapotStream) Close() error                                      { return nil }
+func (t *teapotStream) Finish(err error)                                  { t.rw.WriteHeader(418) }
